@@ -1127,7 +1127,77 @@ def r13e(P, R):
             "definition kinds never matched by %s: %s (such definitions are dropped)" % (f0.path, sorted(need - extv)), loc=f0.loc())
 
 
-RULES = [("R13-a", r13a), ("R13-b", r13b), ("R13-c", r13c), ("R13-d", r13d), ("R13-e", r13e)]
+NARROWING = ("filter", "filter_map", "retain", "retain_mut", "skip_while", "take_while", "map_while", "extract_if")
+
+
+def r13f(P, R):
+    """the resolvers behind `OperationResolver` know every configured document, and the name lists the traversal searches are
+    searched in a way that does not presuppose an order"""
+    A = anchors(P)
+    # (1) which files a resolver knows must not depend on what a file defines: the index is built where the resolver value is
+    # constructed and where the entry point is called from; a narrowing adaptor there whose predicate reads the definitions of the
+    # document leaves valid import targets out (=> FileNotFound for a configured file)
+    impls = [f for f in P.trait_impls("OperationResolver", "resolve") if "::tests::" not in f.path and "#[cfg(test)]" not in f.file]
+    adts = {f.self_adt for f in impls if f.self_adt}
+    scope = {}
+    for g in P.fns.values():
+        if g.derived or "::tests::" in g.path or "/tests" in g.file or g.kind not in ("Fn", "AssocFn"):
+            continue
+        if A.entry.path in P.callees_of(g)[0] or any(x.get("k") in ("Struct", "Call", "Path") and "rest" not in x and
+                                                      norm(x.get("adt") or x.get("ctor_of") or "").split("<")[0] in adts for x in g.walk()):
+            scope[g.path] = g
+    R.floor("R13-f", "functions that build a resolver / call the import resolution", len(scope), 1)
+    bad = []
+    for g in scope.values():
+        gi = inlined(P, g, pred=A.not_rec)
+        gp = Prov(gi)
+        for x in gi.walk():
+            if x.get("k") == "MethodCall" and x["method"] in NARROWING and x["args"] and \
+                    has_field(gp.atoms(x["args"][0]), "nitrogql_ast::operation::OperationDocument", "definitions"):
+                bad.append((g, x["method"]))
+    if bad:
+        g, m = bad[0]
+        R.violated("R13-f", "resolver-index", "%s narrows the set of documents with `%s` by looking into their definitions before they reach the "
+                   "import resolver: a configured file that happens to define nothing of that kind is unknown to the resolver, and a valid import of "
+                   "it is reported as FileNotFound" % (g.path, m), loc=g.loc())
+    else:
+        R.holds("R13-f", "resolver-index", "no document is left out of a resolver's index because of what it defines (%d functions)" % len(scope))
+    # (2) a binary search over the names of an import presupposes that every Import is constructed with a sorted list
+    T, pv = A.T, A.pv
+    searches = [x for x in T.walk() if x.get("k") == "MethodCall" and x["method"].startswith("binary_search")
+                and has_field(pv.atoms(x["recv"]), A.import_adt, "targets")]
+    if not searches:
+        R.holds("R13-f", "name-search", "requested names are looked up by a scan / hash lookup (no order presupposed)", loc=A.rec.loc())
+        return
+    f0 = extension_resolver(P)
+    f = inlined(P, f0)
+    acc = f.nodes()
+    ctors = [i for i, (x, _) in enumerate(acc) if x.get("k") == "Struct" and "rest" not in x and norm(x.get("adt") or "") == A.import_adt]
+    sorts = [i for i, (x, _) in enumerate(acc) if x.get("k") == "MethodCall" and x["method"].startswith("sort")]
+    tadt = sem_adt(P, "ImportTargets").path
+
+    def conds(i):
+        # guards that are not the dispatch on the kind of targets (only a list of names can be sorted)
+        return {id(g.get("node") or g.get("arm") or g["e"]) for g in guards_of(f, i) if g["kind"] in ("cond", "pat", "arm")
+                and not pattern_variants(g.get("pat") if g.get("pat") is not None else g["e"], tadt.split("::")[-1])}
+    if not ctors:
+        R.undecided("R13-f", "name-search", "the traversal uses %s on import.targets; where Import values are built is not recognised" % searches[0]["method"],
+                    loc=A.rec.loc())
+    elif not sorts:
+        R.violated("R13-f", "name-search", "the traversal looks requested names up with `%s`, but %s never sorts the list it stores in an Import: names "
+                   "written out of order are not found and their fragments are silently dropped" % (searches[0]["method"], f0.path), loc=A.rec.loc())
+    else:
+        extra = [s_ for s_ in sorts if all(conds(s_) - conds(c) for c in ctors)]
+        if len(extra) == len(sorts):
+            R.violated("R13-f", "name-search", "the traversal looks requested names up with `%s`, but %s sorts the list only under a condition that "
+                       "does not hold for every Import it builds (e.g. only when several import lines are merged): a single line whose names are "
+                       "written out of order is searched unsorted, and fragments it asks for are silently dropped"
+                       % (searches[0]["method"], f0.path), loc=A.rec.loc())
+        else:
+            R.holds("R13-f", "name-search", "`%s` over a list that is sorted wherever an Import is built" % searches[0]["method"], loc=A.rec.loc())
+
+
+RULES = [("R13-a", r13a), ("R13-b", r13b), ("R13-c", r13c), ("R13-d", r13d), ("R13-e", r13e), ("R13-f", r13f)]
 EXPLANATION = (
     "Structural necessary conditions of import resolution, decided on the traversal located by role (the directly recursive "
     "function that resolves import paths and asks the OperationResolver; its shared state — visited collection, accumulated "
